@@ -25,6 +25,7 @@ import (
 	"strconv"
 	"strings"
 	"sync"
+	"sync/atomic"
 	"time"
 
 	"verif/bx"
@@ -288,6 +289,20 @@ func trunc(s string, n int) string {
 	return s
 }
 
+// hangLimit: how long a worker may show no progress before the journaled case counts as not
+// returning. Generous for the first verdicts; once three cases of this run have been found hanging
+// (the tree under test has a non-terminating path) the rest of the sweep uses a shorter limit, so
+// that a change with many hanging inputs does not cost a minute each. Every recorded hang is
+// confirmed in isolation with the 120 s limit anyway.
+var hangsSeen atomic.Int32
+
+func hangLimit() time.Duration {
+	if hangsSeen.Load() >= 3 {
+		return 15 * time.Second
+	}
+	return 60 * time.Second
+}
+
 func main() {
 	if os.Getenv("C03_WORKER") == "1" {
 		workerMain()
@@ -369,7 +384,7 @@ func main() {
 						cur := readIdx()
 						if cur != lastIdx {
 							lastIdx, lastChange = cur, time.Now()
-						} else if cur >= 0 && time.Since(lastChange) > 60*time.Second {
+						} else if cur >= 0 && time.Since(lastChange) > hangLimit() {
 							cmd.Process.Kill()
 							<-done
 							hung = true
@@ -409,6 +424,7 @@ func main() {
 				kind := "fatal"
 				if hung {
 					kind = "hang"
+					hangsSeen.Add(1)
 				}
 				mu.Lock()
 				crashes = append(crashes, crash{sh, at, kind, trunc(strings.TrimSpace(errb.String()), 200)})
